@@ -26,6 +26,17 @@ inductive FinStep where
   | setIdx
   | sort (perm : List Nat)    -- whatever order a sort pass leaves (a permutation of the entries)
 
+/-- the two kinds of statements of `EntryStore::sort` the step sequence is made of (what the translator
+    extracts from the source: `Generated.entryStoreSortShape`) -/
+inductive SortStmt where
+  | setIdx
+  | sort
+  deriving Repr, DecidableEq
+
+def FinStep.kind : FinStep → SortStmt
+  | .setIdx => .setIdx
+  | .sort _ => .sort
+
 def FinSt.step (s : FinSt) : FinStep → FinSt
   | .setIdx => { s with cells := setEntryIdx s.order s.cells }
   | .sort p => { s with order := p }
